@@ -196,7 +196,10 @@ def run(R, env):
                     nx = shared.unwrap_payload(elem)
                     direct = nx[0] == "call" and nx[1].endswith("Iterator::next") and nx[2][0][0] == "payload" and shared.unwrap_payload(nx[2][0])[0] == "call" and shared.unwrap_payload(nx[2][0])[1].endswith("Iterator::collect") and norm(shared.unwrap_payload(nx[2][0])[2][0]) == norm(rng[0])
                     src_ok = src_ok and direct
-            if not (good_k and v[0] == "agg") and any(s_[0] == "call" and s_[1] == "cw_storage_plus::Map::range" and "migrations::states" in (storage_item_of(s_[2][0]) or "") and ns_of(prog, s_[2][0]) == ns for s_ in list(subterms(k)) + list(subterms(v))):
+            # two-pass pipeline: key AND record both come out of one element of a collection that was
+            # already converted (neither is built at the save site)
+            two_pass = v[0] != "agg" and k[0] == "field" and v[0] == "field" and norm(k[1]) == norm(v[1])
+            if two_pass and any(s_[0] == "call" and s_[1] == "cw_storage_plus::Map::range" and "migrations::states" in (storage_item_of(s_[2][0]) or "") and ns_of(prog, s_[2][0]) == ns for s_ in list(subterms(k)) + list(subterms(v))):
                 R.set_undecided(["C18.R4"], "the 1.0.0 -> 1.1.0 migration converts the old records in a separate pass (map .. collect) before saving them; only the convert-and-save loop over the old map's range is modelled")
             R.ob("C18.R4", ns + ":same-key-full-range-same-namespace", good_k and src_ok, "new record saved under %s; expected the key of each element of the old map's full range (old item %s, read errors propagated)" % (fmt(k)[:100], old_item), loc=o["loc"], fn=mk)
             old = ("field", elem, "1") if elem is not None else None
